@@ -184,6 +184,11 @@ func famFileCrash(f *FamCtx) {
 		}
 		f.RunTreeCase(Case{cfg, ops}, rn, func(CaseStats) bool { return true })
 	}
+	// a Store that fails before anything is written (base directory missing / a regular file), the
+	// directory created, the node stored again through the same Persist value
+	for _, n := range []int{1, 300, 70000} {
+		f.RunTreeCase(Case{cfg, []string{fmt.Sprintf("fsame %d missing", n), fmt.Sprintf("fsame %d notdir", n)}}, rn, func(CaseStats) bool { return true })
+	}
 	f.Report.Stats = map[string]interface{}{"lengths_with_every_cut": exhaustive,
 		"syscall_faults_injected": theFileSysExec.injected, "syscall_faults_not_injected": theFileSysExec.skipped}
 }
